@@ -225,6 +225,23 @@ class Prop(core.Prop):
             except Exception as e:
                 vs.append(viol('inverse-raises', ('date2num', 'cf', cc), '%s: %r' % (type(e).__name__, e),
                                **scope))
+        if not vs and mode == 'vector' and cc == 'standard' and wanterr is None and all(_exists(w_) for w_ in want):
+            # the same instants asked for as numpy datetime64 (UTC, whatever offset the reference date carries)
+            try:
+                import warnings as _w
+                with _w.catch_warnings():
+                    _w.simplefilter('ignore')
+                    g64 = np.asarray(f.getTimes(datetype='datetime64[us]'))
+                w64 = np.array([np.datetime64('%04d-%02d-%02dT%02d:%02d:%02d.%06d' % tuple(w_)) for w_ in want],
+                               dtype='datetime64[us]')
+                if g64.shape != w64.shape or not np.array_equal(g64.astype('datetime64[us]'), w64):
+                    k_ = int(np.flatnonzero(g64.astype('datetime64[us]') != w64)[0]) if g64.shape == w64.shape else 0
+                    vs.append(viol('instant-differs', ('getTimes', 'cf', 'datetime64'),
+                                   '%s: as datetime64 element %d is %s, the file says %s' % (units, k_, g64.ravel()[k_], w64[k_]),
+                                   **scope))
+            except Exception as e:
+                vs.append(viol('instant-differs', ('getTimes', 'cf', 'datetime64'), 'datetype=datetime64[us] raised %s: %r'
+                               % (type(e).__name__, e), **scope))
         if not vs and mode in ('vector', 'bounds-var') and tdt == 'd' and len(want) >= 3 and wanterr is None:
             # the stored numbers are edited in place (interior values only: first, last, length, units and
             # calendar stay as they were) and decoded again: the answer follows the file, not an earlier decode
